@@ -1,3 +1,3 @@
 #!/bin/sh
 # replays this counterexample against the real build
-cd /tmp/seedonly_C03d_13097 && VERIF_SCRIPT=/verif/replays/C07/VHarnessCrashMeltInternal_40ad59e0_0/script.json VERIF_RAW_SALT=0 GOFLAGS=-mod=mod GOPROXY=off go test -vet=off -count=1 -overlay /verif/replays/C07/VHarnessCrashMeltInternal_40ad59e0_0/overlay.json -run ^TestVerifReplay_VHarnessCrashMeltInternal$ -v ./mint
+cd /tmp/seedrepo_C03d && VERIF_SCRIPT=/verif/replays/C07/VHarnessCrashMeltInternal_40ad59e0_0/script.json VERIF_RAW_SALT=0 GOFLAGS=-mod=mod GOPROXY=off go test -vet=off -count=1 -overlay /verif/replays/C07/VHarnessCrashMeltInternal_40ad59e0_0/overlay.json -run ^TestVerifReplay_VHarnessCrashMeltInternal$ -v ./mint
